@@ -21,6 +21,8 @@ STYLES = [
     "The break should manifest only after a particular MULTI-STEP SEQUENCE of public API calls (history-dependent).",
     "The break should manifest only for an UNUSUAL INPUT (odd identifier, spelling, size, type or argument combination) or an unusual but accepted store configuration.",
     "The break should come from TWO COOPERATING EDITS at different sites (different functions) that each look fine alone.",
+    "The break should be VALUE-LEVEL: keep the shape of the code (which functions call which, which locks are taken and released where, which files are created, renamed and removed in which order) exactly as it is, and change only a value, a constant, an operator, a condition or an expression somewhere - so that every statement still looks locally reasonable.",
+    "The break should be an OMISSION or a REORDERING: one existing statement (or a small block) is dropped, duplicated, or moved a few lines up or down / into or out of a try, with, if or loop body - nothing new is written.",
 ]
 
 GENERIC_USED = [
